@@ -26,6 +26,7 @@ type SpecEnv struct {
 	vars   map[string]Val
 	lookup func(name string) (Val, bool)
 	lookupCell func(name string) (Val, bool) // variables kept in memory cells: a parameter that is reassigned lives in one
+	lookupLoc  func(name string) (*Loc, bool) // the memory cell itself (for modifies items naming a field of a local struct)
 	st     *State
 	old    *State
 	pre    *State // state at the entry of the loop whose invariant is being evaluated (for pre(E))
@@ -590,6 +591,13 @@ func (s *Session) evalAddr(se *SpecEnv, e SExpr) (*Loc, error) {
 					}
 				}
 			}
+			if id, ok := x.X.(*SIdent); ok && se.lookupLoc != nil {
+				if l, found := se.lookupLoc(id.Name); found && !isPointer(l.Typ) {
+					baseLoc = l // a local struct variable that lives in a memory cell
+				}
+			}
+		}
+		if baseLoc == nil {
 			v := s.evalSpec(se, x.X)
 			if v.Loc == nil && !isPointer(v.Typ) {
 				return nil, fmt.Errorf("cannot take address through non-pointer %v", v.Typ)
